@@ -349,7 +349,20 @@ template <class S> static std::string writeOn(S& s, const Toks& t)
 static int be32(const char* p) { unsigned u = ((unsigned)(byte)p[0] << 24) | ((unsigned)(byte)p[1] << 16) | ((unsigned)(byte)p[2] << 8) | (unsigned)(byte)p[3]; int x; memcpy(&x, &u, 4); return x; }
 static int le32(const char* p) { unsigned u = ((unsigned)(byte)p[3] << 24) | ((unsigned)(byte)p[2] << 16) | ((unsigned)(byte)p[1] << 8) | (unsigned)(byte)p[0]; int x; memcpy(&x, &u, 4); return x; }
 
+static std::string step1(const Toks& t);
+
+// every read asked for bytes that are there (the protocol guards the others): the socket must stay healthy
 static std::string step(const Toks& t)
+{
+	std::string r = step1(t);
+	if (st.kind == K_SOCK && st.reading && st.rs && st.rs->error() != 0 && r.compare(0, 3, "err") != 0 && t[0] != "state")
+		return "err socket-marked-failed-by-a-satisfied-read error=" + str(st.rs->error()) + " (" + r + ")";
+	if (st.kind == K_SOCK && !st.reading && st.ws && st.ws->error() != 0 && r.compare(0, 3, "err") != 0 && t[0] != "state")
+		return "err socket-marked-failed-by-a-write error=" + str(st.ws->error()) + " (" + r + ")";
+	return r;
+}
+
+static std::string step1(const Toks& t)
 {
 	const std::string& op = t[0];
 	if (op == "new" && t.size() == 3) {
@@ -456,6 +469,12 @@ static std::string step(const Toks& t)
 		return writeOn(*st.ws, t);
 	}
 
+	if (op == "state" && t.size() == 1) {
+		// what the object reports about itself: a healthy stream has no error and (reader socket) exactly the unread bytes pending
+		if (st.kind != K_SOCK) return "na";
+		if (!st.reading) return "ok error=" + str(st.ws->error());
+		return "ok error=" + str(st.rs->error()) + " available=" + str(st.rs->available());
+	}
 	bool isRead = op == "rsame" || op == "ra" || op == "rendian" || op == "r" || op == "rb" || op == "skip" || op == "rs";
 	if (!isRead) return "bad-op";
 	if (!st.reading) return "not-reading";
